@@ -558,7 +558,10 @@ func (m *Machine) prepareCall(fr *frame, c *ssa.CallCommon) (func([]Value) Value
 			if o, ok := recv.V.(Opaque); ok {
 				return m.opaqueMethod(o, c.Method.Name(), args)
 			}
-			fn := m.P.SSA.LookupMethod(recv.T, c.Method.Pkg(), c.Method.Name())
+			var fn *ssa.Function
+			if sel := m.P.SSA.MethodSets.MethodSet(recv.T).Lookup(c.Method.Pkg(), c.Method.Name()); sel != nil {
+				fn = m.P.SSA.MethodValue(sel)
+			}
 			if fn == nil {
 				m.unsupported("method " + c.Method.Name() + " not found on " + recv.T.String())
 			}
